@@ -336,6 +336,13 @@ for _k, _c in CONDS:
     if _k in ("if-or", "if-and", "if-eq", "if-truthy", "if-eq-nil", "if-not"):
         STMTS.append(("ternary-" + _k, "{{ 'T' if " + _c + " else 'F' }}"))
 
+KEYWORD_ARGS: list[tuple[str, str]] = [
+    ("keyword-arg:append-empty", "{{ s | append: empty }}"),
+    ("keyword-arg:append-blank", "{{ s | append: blank }}"),
+    ("keyword-arg:default-empty", "{{ nl | default: empty }}|{{ e | default: blank }}"),
+    ("keyword-arg:join-blank", "{{ arr | join: blank }}"),
+    ("keyword-arg:kw", "{% render 'p_use', x: empty %}{% with a: blank %}{{ a }}{% endwith %}"),
+]
 STMTS.extend(BABEL)
 STMTS.extend(BABEL_INPUT)
 
@@ -589,12 +596,14 @@ def sweep() -> list[dict[str, Any]]:
 
     def add(kind: str, text: str, nouse: tuple[str, ...] = (), complete: bool = False,
             extra: dict[str, Any] | None = None, delete: list[tuple] | None = None,
-            both: bool = False) -> None:
-        key = text + "\x00" + repr(sorted((extra or {}).items())) + repr(delete)
+            both: bool = False, shape: tuple[str, str] | None = None,
+            mode: str | None = None) -> None:
+        key = text + "\x00" + repr(sorted((extra or {}).items())) + repr(delete) + repr(shape)
         if key not in seen:
             seen.add(key)
             out.append({"kind": kind, "src": text, "nouse": nouse, "complete": complete,
-                        "extra": extra or {}, "delete": delete or [], "both": both})
+                        "extra": extra or {}, "delete": delete or [], "both": both,
+                        "shape": shape, "mode": mode})
 
     # no-use forms first: an identical text from the general forms must not shadow them
     for kind, tpl in NOUSE:
@@ -623,10 +632,22 @@ def sweep() -> list[dict[str, Any]]:
     for kind, text in BABEL:
         for extra in variants:
             add(kind, text, complete=True, extra=extra, both=True)
+    # `empty` / `blank` are literals of the language, not data variables
+    for kind, text in KEYWORD_ARGS:
+        add(kind, text, complete=True, both=True)
     # expressions rooted at template-local bindings; complete by construction.  The
     # dynamic partials go into PARTIALS (same names and bodies every time).
     for kind, text in locals_programs(PARTIALS):
         add(kind, text, complete=True, both=True)
+    for li, (kind, text) in enumerate(locals_programs(PARTIALS)):
+        # ... and once more with the arrays / hashes in another shape
+        add(kind, text, complete=True, shape=SHAPES[li % len(SHAPES)],
+            mode="async" if li % 2 else "sync")
+    for kind, text in SHAPE_FORMS:
+        for shape in SHAPES:
+            add(kind, text, complete=True, both=True, shape=shape)
+    for kind, text, dels in inner_programs():
+        add(kind, text, delete=dels, both=True)
     for kind, tpl in STMTS:
         arrays = ARRAYS if ("{A}" in tpl and "{P}" in tpl) else ["arr"]
         if "{P}" not in tpl:
@@ -651,6 +672,8 @@ def sweep() -> list[dict[str, Any]]:
 # with-block binding, tablerow variable), at nesting depth 0-2.  The data is BASE, every
 # path resolves: complete by construction.
 # ---------------------------------------------------------------------------------------
+BASE["akey"] = "a"
+BASE["bkey"] = "b"
 BASE["rich"] = {"k": 1, "v": "x", "t": True, "list": [1, 2, 3], "key": "k", "n": 2}
 BASE["riches"] = [
     {"k": 1, "v": "x", "t": True, "list": [1, 2, 3], "key": "k", "n": 2},
@@ -827,3 +850,233 @@ def locals_programs(partials: dict[str, str]) -> list[tuple[str, str]]:
                     if ok:
                         out.append((f"local:{bk}/{uk}/{vk}", text))
     return out
+
+
+# ---------------------------------------------------------------------------------------
+# inner variables: a variable used as key / index inside another path at depth >= 2, as
+# filter argument, range bound, loop limit / offset, cycle member, case / when value ...
+# -- and only that inner variable (or its nested property) is deleted.
+# ---------------------------------------------------------------------------------------
+INNER_FORMS: list[tuple[str, str]] = [
+    ("inner:key-prop", "{{ h[akey].b.c }}{{ objs[idx].v }}"),
+    ("inner:key-key", "{{ objs[idx][key] }}{{ h['a'][bkey].c }}"),
+    ("inner:deep", "{{ h.a[bkey].c }}{{ user.tags[rich.k].size }}{{ riches[rich.k].list[idx] }}"),
+    ("inner:prop-key-prop", "{{ h[akey][bkey].c }}{{ rich.list[rich.k] }}{{ riches[idx].list[rich.n].size }}"),
+    ("inner:key-default", "{{ h[key] | default: 'd' }}{{ objs[idx].v | default: 'e' }}"),
+    ("inner:key-if", "{% if h[akey].b %}T{% else %}F{% endif %}{% if objs[idx].k == 2 %}two{% endif %}"),
+    ("inner:key-for", "{% for x in riches[idx].list %}{{ x }}{% else %}-{% endfor %}"),
+    ("inner:key-assign", "{% assign v = objs[idx].v %}[{{ v }}]{% assign w = h[key] %}[{{ w | default: '?' }}]"),
+    ("inner:key-template-string", "{{ \"a${objs[idx].v}b${h[akey].b.c}\" }}"),
+    ("inner:key-filter-arg", "{{ s | append: objs[idx].v }}{{ arr | join: h[key] }}"),
+    ("inner:key-lambda", "{{ objs | where: i => i.k == riches[idx].k | size }}{{ objs | map: i => i[key] | join: ',' }}"),
+    ("inner:key-render", "{% render 'p_use' with objs[idx].v as x %}{% render 'p_default', x: h[akey].b.c %}"),
+    ("inner:key-include", "{% include 'p_use' with objs[idx].v as x %}{% include 'p_for', x: riches[idx].list %}"),
+    ("inner:key-case", "{% case objs[idx].k %}{% when 2 %}two{% when rich.k %}k{% else %}o{% endcase %}"),
+    ("inner:filter-arg", "{{ s | slice: idx }}{{ s | truncate: n }}{{ arr | join: key }}{{ n | plus: idx }}{{ s | append: key }}"),
+    ("inner:filter-arg-2", "{{ s | replace: key, s }}{{ s | split: key | size }}{{ n | round: idx }}{{ arr | concat: strs | size }}{{ n | at_least: idx }}"),
+    ("inner:filter-arg-where", "{{ objs | where: 'k', idx | size }}{{ objs | find: 'v', key | size }}{{ objs | map: key | join: ',' }}{{ objs | sort: key | size }}{{ objs | sum: key }}"),
+    ("inner:range", "{% for x in (idx..n) %}{{ x }}{% endfor %}{{ (1..idx) | join: ',' }}"),
+    ("inner:range-prop", "{% for x in (rich.k..rich.n) %}{{ x }}{% endfor %}"),
+    ("inner:limit-offset", "{% for x in arr limit: n offset: idx %}{{ x }}{% endfor %}"),
+    ("inner:limit-prop", "{% for x in arr limit: rich.n %}{{ x }}{% endfor %}{% for x in arr offset: rich.k %}{{ x }}{% endfor %}"),
+    ("inner:tablerow", "{% tablerow x in arr cols: n limit: idx %}{{ x }}{% endtablerow %}"),
+    ("inner:cycle", "{% cycle key, idx, s %}{% cycle key, idx, s %}{% cycle 'g': rich.v, n %}"),
+    ("inner:case-when", "{% case n %}{% when idx %}i{% when key, 3 %}three{% else %}o{% endcase %}"),
+    ("inner:case-subject", "{% case idx %}{% when 1 %}one{% else %}o{% endcase %}{% case rich.v %}{% when 'x' %}x{% endcase %}"),
+    ("inner:with-call", "{% with a: idx, b: key %}{{ a }}{{ b }}{% endwith %}{% macro m a, b %}[{{ a }}{{ b }}]{% endmacro %}{% call m idx, b: key %}"),
+    ("inner:ternary", "{{ key if idx else n }}{{ 'a' if idx == 1 else 'b' }}{{ s | append: key if idx }}"),
+    ("inner:translate", "{% translate who: key, count: idx %}Hi %(who)s{% plural %}His %(who)s{% endtranslate %}{{ 'x %(a)s' | t: a: idx }}"),
+    ("inner:contains", "{% if arr contains idx %}T{% else %}F{% endif %}{% if key in strs %}T{% else %}F{% endif %}{% if h contains key %}T{% else %}F{% endif %}"),
+    ("inner:json-size", "{{ idx | json }}{{ key | size }}{{ rich.k | json }}{{ key | first }}{{ key | upcase | json }}"),
+    ("inner:babel", "{{ idx | currency }}{{ n | unit: key }}{{ dt | datetime: format: key }}"),
+    ("inner:date", "{{ dt | date: key }}{{ key | date: '%Y' }}"),
+]
+INNER_DELETIONS: list[list[tuple]] = [
+    [("key",)], [("idx",)], [("n",)], [("key",), ("idx",)], [("rich", "k")], [("rich", "key")],
+    [("rich", "v")], [("rich", "n")], [("rich",)], [("s",)], [("dt",)], [("akey",)], [("bkey",)],
+    [("akey",), ("bkey",)],
+]
+
+
+def inner_programs() -> list[tuple[str, str, list[tuple]]]:
+    out = []
+    import re as _re
+
+    for kind, text in INNER_FORMS:
+        for dels in INNER_DELETIONS:
+            # only deletions of something the form mentions
+            if all(_re.search(r"(?<![\w.'])" + _re.escape(d[0]) + r"(?![\w'])", text) and
+                   (len(d) == 1 or ("." + str(d[1])) in text) for d in dels):
+                out.append((kind, text, dels))
+    return out
+
+
+# ---------------------------------------------------------------------------------------
+# data shapes: the same values supplied as tuple / range / a custom abc.Sequence drop /
+# collections.UserList, hashes as an abc.Mapping drop / dict subclass.  Every path of a
+# complete program still resolves, so the program stays complete by construction.
+# ---------------------------------------------------------------------------------------
+import collections as _collections  # noqa: E402
+import collections.abc as _abc  # noqa: E402
+
+
+class SeqDrop(_abc.Sequence):
+    """abc.Sequence with __getitem__/__len__ only."""
+
+    def __init__(self, items):  # noqa: ANN001
+        self._items = list(items)
+
+    def __getitem__(self, i):  # noqa: ANN001
+        if isinstance(i, slice):
+            return SeqDrop(self._items[i])
+        if not isinstance(i, int):
+            raise TypeError(f"indices must be integers, not {type(i).__name__}")
+        return self._items[i]
+
+    def __len__(self) -> int:
+        return len(self._items)
+
+    def __repr__(self) -> str:
+        return f"SeqDrop({self._items!r})"
+
+    def __tagged__(self):  # noqa: ANN204
+        from .core import to_tagged
+
+        return {"$c16seq": to_tagged(self._items)}
+
+
+class MapDrop(_abc.Mapping):
+    """abc.Mapping with __getitem__/__iter__/__len__ only."""
+
+    def __init__(self, items):  # noqa: ANN001
+        self._d = dict(items)
+
+    def __getitem__(self, k):  # noqa: ANN001
+        return self._d[k]
+
+    def __iter__(self):  # noqa: ANN204
+        return iter(self._d)
+
+    def __len__(self) -> int:
+        return len(self._d)
+
+    def __repr__(self) -> str:
+        return f"MapDrop({self._d!r})"
+
+    def __tagged__(self):  # noqa: ANN204
+        from .core import to_tagged
+
+        return {"$c16map": to_tagged(self._d)}
+
+
+class UList(_collections.UserList):
+    def __tagged__(self):  # noqa: ANN204
+        from .core import to_tagged
+
+        return {"$c16ulist": to_tagged(list(self.data))}
+
+
+class DictSub(dict):
+    def __tagged__(self):  # noqa: ANN204
+        from .core import to_tagged
+
+        return {"$c16dict": to_tagged(dict(self))}
+
+
+SEQ_SHAPES = ("list", "tuple", "seqdrop", "ulist", "range")
+MAP_SHAPES = ("dict", "mapdrop", "dictsub")
+SHAPES = [("tuple", "dict"), ("seqdrop", "dict"), ("ulist", "dict"), ("range", "dict"),
+          ("list", "mapdrop"), ("list", "dictsub"), ("seqdrop", "mapdrop"), ("tuple", "dictsub"),
+          ("range", "mapdrop")]
+
+
+def _as_range(v: list) -> Any:
+    if len(v) >= 2 and all(type(x) is int for x in v):
+        step = v[1] - v[0]
+        if step and all(v[i + 1] - v[i] == step for i in range(len(v) - 1)):
+            return range(v[0], v[-1] + (1 if step > 0 else -1), step)
+    return None
+
+
+def reshape(o: Any, seq: str, mp: str, top: bool = True) -> Any:
+    """Deep copy of JSON-like *o* with arrays / hashes in the given shapes (the top-level
+    namespace stays a dict: it is passed as keyword arguments)."""
+    if isinstance(o, dict):
+        d = {k: reshape(v, seq, mp, False) for k, v in o.items()}
+        if top or mp == "dict":
+            return d
+        return MapDrop(d) if mp == "mapdrop" else DictSub(d)
+    if isinstance(o, list):
+        items = [reshape(v, seq, mp, False) for v in o]
+        if seq == "tuple":
+            return tuple(items)
+        if seq == "seqdrop":
+            return SeqDrop(items)
+        if seq == "ulist":
+            return UList(items)
+        if seq == "range":
+            r = _as_range(items)
+            return r if r is not None else items
+        return items
+    return o
+
+
+def untag(o: Any) -> Any:
+    """Inverse of the __tagged__ forms after core.from_tagged (replay)."""
+    if isinstance(o, dict):
+        if len(o) == 1:
+            ((k, v),) = o.items()
+            if k == "$c16seq":
+                return SeqDrop(untag(v))
+            if k == "$c16map":
+                return MapDrop(untag(v))
+            if k == "$c16ulist":
+                return UList(untag(v))
+            if k == "$c16dict":
+                return DictSub(untag(v))
+        return {k: untag(v) for k, v in o.items()}
+    if isinstance(o, list):
+        return [untag(v) for v in o]
+    if isinstance(o, tuple):
+        return tuple(untag(v) for v in o)
+    return o
+
+
+# forms that iterate / index / measure arrays and hashes; complete by construction on BASE
+SHAPE_FORMS: list[tuple[str, str]] = [
+    ("shape:for", "{% for x in arr %}{{ x }}{% else %}-{% endfor %}{% for o in objs %}{{ o.k }}{{ o.v }}{% endfor %}"),
+    ("shape:for-params", "{% for x in arr limit: 2 offset: 1 reversed %}{{ x }}{{ forloop.length }}{% endfor %}"),
+    ("shape:for-nested", "{% for r in riches %}{% for y in r.list %}{{ y }}{% endfor %}{{ r.v }}{% endfor %}"),
+    ("shape:for-hash", "{% for pair in h %}{{ pair[0] }}{% endfor %}{% for pair in rich %}{{ pair[0] }},{% endfor %}"),
+    ("shape:tablerow", "{% tablerow o in objs cols: 2 %}{{ o.v }}{% endtablerow %}"),
+    ("shape:include-for", "{% include 'p_row' for objs as row %}"),
+    ("shape:include-for-name", "{% include 'p_item' for objs %}"),
+    ("shape:include-with", "{% include 'p_row' with objs[0] as row %}{% include 'p_row' with riches.first as row %}"),
+    ("shape:include-for-scalars", "{% include 'p_use' for arr as x %}{% include 'p_use' for user.tags as x %}"),
+    ("shape:include-for-nested", "{% for r in riches %}{% include 'p_use' for r.list as x %}{% endfor %}"),
+    ("shape:render-for", "{% render 'p_row' for objs as row %}"),
+    ("shape:render-for-name", "{% render 'p_item' for objs %}"),
+    ("shape:render-with", "{% render 'p_rows' with objs as rows %}"),
+    ("shape:render-for-scalars", "{% render 'p_use' for arr as x %}{% render 'p_use' for h.list as x %}"),
+    ("shape:render-forloop", "{% render 'p_rowloop' for objs as row %}"),
+    ("shape:index", "{{ arr[0] }}{{ arr[-1] }}{{ objs[1].v }}{{ objs[idx].k }}{{ h.list[1] }}{{ riches[0].list[2] }}"),
+    ("shape:first-last-size", "{{ arr.first }}{{ arr.last }}{{ arr.size }}{{ objs.first.v }}{{ objs.last.k }}{{ user.tags.size }}{{ h.size }}"),
+    ("shape:hash-props", "{{ h.k }}{{ h['k'] }}{{ h[key] }}{{ h.a.b.c }}{{ user.name }}{{ rich.list.first }}{{ h.a.size }}"),
+    ("shape:filters-1", "{{ arr | first }}{{ arr | last }}{{ arr | size }}{{ arr | join: ',' }}{{ strs | sort | join: ',' }}{{ arr | reverse | join: ',' }}"),
+    ("shape:filters-2", "{{ objs | map: 'k' | join: ',' }}{{ objs | where: 'k', 2 | size }}{{ objs | where: 't' | size }}{{ objs | find: 'v', 'y' | size }}{{ objs | has: 'k', 3 }}"),
+    ("shape:filters-3", "{{ strs | uniq | size }}{{ arr | compact | size }}{{ arr | concat: strs | size }}{{ arr | sum }}{{ objs | sum: 'k' }}{{ objs | sort: 'k' | map: 'v' | join: ',' }}"),
+    ("shape:filters-4", "{{ objs | reject: 'k', 1 | size }}{{ objs | find_index: 'k', 2 }}{{ strs | sort_natural | first }}{{ arr | sort_numeric | last }}{{ arr | slice: 1, 2 | join: ',' }}"),
+    ("shape:lambda", "{{ objs | map: i => i.v | join: ',' }}{{ objs | where: i => i.k > 1 | size }}{{ objs | sort: i => i.k | size }}{{ riches | map: i => i.list.size | join: ',' }}"),
+    ("shape:contains", "{% if arr contains 2 %}T{% else %}F{% endif %}{% if 'x' in user.tags %}T{% else %}F{% endif %}{% if h contains 'k' %}T{% else %}F{% endif %}"),
+    ("shape:eq", "{% if arr == arr %}T{% else %}F{% endif %}{% if arr == empty %}E{% else %}N{% endif %}{% if earr == empty %}E{% else %}N{% endif %}"),
+    ("shape:output", "{{ arr }}{{ strs }}{{ user.tags }}"),
+    ("shape:assign-for", "{% assign v = objs %}{% for o in v %}{{ o.v }}{% endfor %}{% assign w = objs | map: 'v' %}{{ w | join: '+' }}"),
+    ("shape:with-macro", "{% with a: objs %}{% for o in a %}{{ o.k }}{% endfor %}{% endwith %}{% macro m a %}{% for o in a %}{{ o.v }}{% endfor %}{% endmacro %}{% call m objs %}"),
+    ("shape:cycle-case", "{% for o in objs %}{% cycle 'a', 'b' %}{% case o.k %}{% when 2 %}two{% else %}{{ o.k }}{% endcase %}{% endfor %}"),
+    ("shape:default", "{{ arr | default: 'd' | size }}{{ earr | default: 'd' }}{{ h | default: 'd' | size }}"),
+    ("shape:template-string", "{{ \"${arr[0]}-${objs[0].v}-${arr | size}\" }}"),
+]
+PARTIALS["p_row"] = "[{{ row.k }}:{{ row.v }}]"
+PARTIALS["p_item"] = "[{{ p_item.k }}:{{ p_item.v }}]"
+PARTIALS["p_rows"] = "[{% for r in rows %}{{ r.v }}{% endfor %}{{ rows.size }}{{ rows[0].k }}]"
+PARTIALS["p_rowloop"] = "[{{ forloop.index }}/{{ forloop.length }}:{{ row.v }}]"
